@@ -10,14 +10,19 @@ type op = Sub of Store.src | Query of string | Damage
 let starts_with p s = Stdlib.String.length s >= Stdlib.String.length p && Stdlib.String.sub s 0 (Stdlib.String.length p) = p
 let after n s = Stdlib.String.sub s n (Stdlib.String.length s - n)
 
-(* head tokens g= f= e= ; every other token is an operation *)
+(* set by parse_case: the history contains zero-work headers (oracle from the history-level spec not applicable) *)
+let zero_work = ref false
+
+(* head tokens g= f= e= [zw=] ; every other token is an operation *)
 let parse_case (line : string) =
   let toks = Stdlib.List.filter (fun t -> t <> "") (split_on ';' line) in
   let head = Stdlib.List.filter (fun t -> starts_with "g=" t || starts_with "f=" t) toks in
   let h0 = parse_history (Stdlib.String.concat ";" head) in
   let excess = ref (z_of_int 6) in
+  zero_work := false;
   let ops = Stdlib.List.filter_map (fun t ->
       if starts_with "g=" t || starts_with "f=" t then None
+      else if starts_with "zw=" t then (zero_work := true; None)
       else if starts_with "e=" t then (excess := z_of_string (after 2 t); None)
       else if starts_with "q=" t then Some (Query (after 2 t))
       else if starts_with "d=" t then Some Damage
@@ -94,7 +99,9 @@ let spec input obs =
   let (h, excess, ops) = parse_case input in
   let blocks = if obs = "" then [] else split_on '|' obs in
   let nq = Stdlib.List.length (Stdlib.List.filter (function Query _ -> true | _ -> false) ops) in
-  if Stdlib.List.length blocks <> nq then "FAIL answer-block-count" else begin
+  if Stdlib.List.length blocks <> nq then "FAIL answer-block-count"
+  else if !zero_work then (if Stdlib.List.mem "PANIC" blocks then "FAIL panic zero-work history" else "OK")
+  else begin
     let ss = ref (Chain.init h.gid h.gpl) in          (* label-free specification store *)
     let blocks = ref blocks in
     let verdict = ref "OK" in
